@@ -191,7 +191,7 @@ func init() {
 			{ID: "R10.1d", Title: "closure values built by built-ins during an evaluation keep no mutable state (no store into captured variables)", Floor: 1, Run: ruleR101closureValues},
 			{ID: "R10.1c", Title: "evaluation code stores nothing into package level variables, generator fields or shared language values", Floor: 1, Run: ruleR101effects},
 			{ID: "R10.2", Title: "every Eval creates its own stack; no generator-owned stack is used by evaluation code", Floor: 2, Run: ruleR102},
-			{ID: "R10.2b", Title: "a stack never adopts a slice it does not own: NewStack(x...) only with a slice the calling function allocated itself", Floor: 3, Run: ruleR102b},
+			{ID: "R10.2b", Title: "a stack never adopts a slice it does not own: NewStack(x...) only with a slice the calling function allocated itself", Floor: 1, Run: ruleR102b},
 			{ID: "R09.1", Title: "list backing slices are never written in place (see C09)", Floor: 36, Run: ruleR091},
 			{ID: "R09.2", Title: "maps are never updated in place (see C09)", Floor: 40, Run: ruleR092},
 			{ID: "R09.3", Title: "language values other than List never append to a slice field of their receiver or of a shallow copy of it without capping or cloning it", Floor: 1, Run: ruleR093},
@@ -210,7 +210,7 @@ func init() {
 			{ID: "R10.1d", Title: "closure values built by built-ins during an evaluation keep no mutable state (no store into captured variables)", Floor: 1, Run: ruleR101closureValues},
 			{ID: "R10.1c", Title: "evaluation code stores nothing into package level variables, generator fields or shared language values", Floor: 1, Run: ruleR101effects},
 			{ID: "R10.2", Title: "every Eval creates its own stack; no generator-owned stack is used by evaluation code", Floor: 2, Run: ruleR102},
-			{ID: "R10.2b", Title: "a stack never adopts a slice it does not own: NewStack(x...) only with a slice the calling function allocated itself", Floor: 3, Run: ruleR102b},
+			{ID: "R10.2b", Title: "a stack never adopts a slice it does not own: NewStack(x...) only with a slice the calling function allocated itself", Floor: 1, Run: ruleR102b},
 			{ID: "R11.1", Title: "package level variables read by evaluation code are written once per process only (declaration, init, package level sync.Once)", Floor: 11, Run: ruleR111},
 			{ID: "R06.2", Title: "the List cache is accessed under its mutex only", Floor: 8, Run: ruleR062},
 			{ID: "R09.1", Title: "list backing slices are never written in place; an append into spare capacity happens inside the critical section that trims the parent (see C09)", Floor: 36, Run: ruleR091},
@@ -353,7 +353,7 @@ func init() {
 			{ID: "R02.3", Title: "purity propagation (see C02)", Floor: 15, Run: ruleR023},
 			{ID: "R02.7", Title: "subtree promotion only under the generated code's own condition (see C02)", Floor: 2, Run: ruleR027},
 			{ID: "R02.8", Title: "first-match folding of switch nodes (see C02)", Floor: 0, Run: ruleR028},
-			{ID: "R10.2b", Title: "a stack never adopts a slice it does not own (see C10)", Floor: 3, Run: ruleR102b},
+			{ID: "R10.2b", Title: "a stack never adopts a slice it does not own (see C10)", Floor: 1, Run: ruleR102b},
 			{ID: "R03.1", Title: "one recursion level per operator (see C03)", Floor: 3, Run: ruleR031},
 			{ID: "R03.2", Title: "left associative accumulation loop (see C03)", Floor: 7, Run: ruleR032},
 			{ID: "R03.3", Title: "prefix operators (see C03)", Floor: 3, Run: ruleR033},
